@@ -130,7 +130,7 @@ MUTANTS = [
     dict(id="c02_nesterov_drops_w", property="C02", edits=[(DS, "nesterov_momentum_update = w * wd_update + beta1 * momentum_update", "nesterov_momentum_update = wd_update + beta1 * momentum_update")],
          note="only differs with moving_average_for_momentum and nesterov"),
     dict(id="c02_warmup_off_by_one", property="C02", edits=[(DS, "run_shampoo = (step >= start_preconditioning_step)", "run_shampoo = (step > start_preconditioning_step)")]),
-    dict(id="c02_graft_multiplier_inverted", property="C02", edits=[(DS, "multiplier = (grafting_update_norm / (precond_grad_norm + _EPSILON))", "multiplier = (precond_grad_norm / (grafting_update_norm + _EPSILON))")]),
+    dict(id="c02_graft_multiplier_inverted", property="C02", edits=[(DS, "                        (precond_grad_norm + _EPSILON)) * grafting_update_norm", "                        (grafting_update_norm + _EPSILON)) * precond_grad_norm")]),
     dict(id="c02_rmsprop_weights_swapped", property="C02", edits=[(DS, "          w1 * state.diagonal_statistics.to_float() +\n          w2 * jnp.square(scaled_grad))", "          w2 * state.diagonal_statistics.to_float() +\n          w1 * jnp.square(scaled_grad))")]),
     dict(id="c02_coupled_lr_applied_twice", property="C02", edits=[(DS, "momentum_multiplier = lr if decoupled_learning_rate else 1.0", "momentum_multiplier = lr")]),
     dict(id="c02_decoupled_wd_lr_swapped", property="C02", edits=[(DS, "wd_lr = 1.0 if decoupled_learning_rate else lr", "wd_lr = lr if decoupled_learning_rate else 1.0")]),
